@@ -169,7 +169,7 @@ def run_case(unit, cs, idx, build, params):
         return run_w5(cs, params)
     ins.install()
     ins.reset()
-    spec = w2.gen(cs, risk=0.15)
+    spec = w2.gen(cs, risk=0.15, fills=0.3)
     sig = w2.signature(spec)
     sample = w2.sample_of(spec)
     ctx0 = ObsCtx()
